@@ -19,6 +19,7 @@
 -/
 import CachedProofs.Lemmas.Queue
 import CachedProofs.LayerB.Refine
+import CachedProofs.LayerB.Order
 
 namespace Cached
 
